@@ -159,7 +159,7 @@ func genLifecycle(rc *core.RunCtx, env *Env, p lcParams) *lcScenario {
 						m.Op = cPanic
 						m.Deep = g.Bool(0.1)
 						if !m.Deep {
-							m.PanicVal = g.Pick(7, 1, 1, 1) // mostly a string; an error, an error holding a nil pointer, a struct
+							m.PanicVal = g.Pick(14, 2, 2, 2, 1) // mostly a string; an error, an error holding a nil pointer, a struct, a nil *InternalError
 						}
 						budgetLeft[root]--
 						sc.crashN[root]++
